@@ -9,6 +9,7 @@ import Snmp.Model.Types
 import Snmp.Gen.Facts
 import Snmp.Model.Agent
 import Snmp.Model.Walk
+import Snmp.Model.Ops
 open Lean Snmp
 
 namespace Driver
@@ -161,6 +162,78 @@ def walkRun (j : Json) : Except String Json := do
     | k => throw s!"bad walk kind {k}"
   pure (Json.mkObj [("events", toJson (r.events.map eventToJson)), ("outcome", outcomeToJson r.outcome)])
 
+def oidsOfJson (j : Json) : Except String (List Oid) := do
+  let a ← j.getArr?
+  a.toList.mapM oidOfJson
+
+def bytesOfJson (j : Json) : Except String Bytes := do ofHex (← j.getStr?)
+
+def protoOfJson (j : Json) : Except String Ops.Proto := do
+  let a ← j.getArr?
+  match (a[0]?.getD Json.null).getStr? with
+  | .ok "v1" => pure (.v1 (← bytesOfJson (a[1]?.getD Json.null)))
+  | .ok "v2c" => pure (.v2c (← bytesOfJson (a[1]?.getD Json.null)))
+  | .ok "v3" => pure .v3
+  | _ => throw "bad proto"
+
+def pduRespOfJson (j : Json) : Except String Ops.PduResp := do
+  pure ⟨← getInt j "rid", ← getInt j "es", ← getInt j "ei", ← vbsOfJson (← j.getObjVal? "vbs")⟩
+
+def scriptOfJson (j : Json) : Except String (List (Except Err Ops.RespMsg)) := do
+  let a ← j.getArr?
+  a.toList.mapM fun e => do
+    match e.getObjVal? "ok" with
+    | .ok m =>
+      let version := (m.getObjValAs? Int "version").toOption.getD 1
+      let community ← match m.getObjVal? "community" with
+        | .ok c => bytesOfJson c
+        | .error _ => pure []
+      pure (.ok ⟨version, community, ← pduRespOfJson (← m.getObjVal? "pdu")⟩)
+    | .error _ =>
+      let k ← e.getObjValAs? String "err"
+      pure (.error (if k == "timeout" then Err.timeout else Err.other k))
+
+def reqKindToJson : Ops.ReqKind → Json
+  | .get => "get" | .getnext => "getnext" | .set => "set" | .getbulk => "getbulk"
+
+def pduReqToJson (r : Ops.PduReq) : Json :=
+  Json.mkObj [("type", reqKindToJson r.kind), ("rid", toJson r.requestId), ("a", toJson r.a), ("b", toJson r.b),
+    ("vbs", toJson (r.varbinds.map vbToJson))]
+
+def opsRun (j : Json) : Except String Json := do
+  let proto ← protoOfJson (← j.getObjVal? "proto")
+  let clock ← j.getObjValAs? (Array Int) "clock"
+  let rid ← match clock[0]? with
+    | some t => pure t
+    | none => throw "empty clock"
+  let script ← scriptOfJson (← j.getObjVal? "script")
+  let answer : Except Err Ops.RespMsg := match script with
+    | r :: _ => r
+    | [] => .error (.other "script-exhausted")
+  let opn ← j.getObjValAs? String "name"
+  let fin {α} (op : Ops.Op α) (enc : α → Json) : Json :=
+    let res := match op.result rid answer with
+      | .ok v => toJson (#[toJson "ok", enc v] : Array Json)
+      | .error e => toJson (#[toJson "error", errToJson e] : Array Json)
+    Json.mkObj [("result", res), ("sent", toJson [pduReqToJson (op.request rid)]), ("reads", toJson (1 : Nat))]
+  let vbsJ (l : List VarBind) : Json := toJson (l.map vbToJson)
+  match opn with
+  | "multiget" =>
+    pure (fin (Ops.multiget proto (← oidsOfJson (← j.getObjVal? "oids"))) (fun r => toJson (r.map valToJson)))
+  | "get" => pure (fin (Ops.get proto (← oidOfJson (← j.getObjVal? "oid"))) valToJson)
+  | "multigetnext" => pure (fin (Ops.multigetnext proto (← oidsOfJson (← j.getObjVal? "oids"))) vbsJ)
+  | "getnext" => pure (fin (Ops.getnext proto (← oidOfJson (← j.getObjVal? "oid"))) vbToJson)
+  | "multiset" => pure (fin (Ops.multiset proto (← vbsOfJson (← j.getObjVal? "vbs"))) vbsJ)
+  | "set" =>
+    let vb ← vbOfJson (← j.getObjVal? "vb")
+    pure (fin (Ops.set proto vb.1 vb.2) valToJson)
+  | "bulkget" =>
+    let scalars ← oidsOfJson (← j.getObjVal? "scalars")
+    let reps ← oidsOfJson (← j.getObjVal? "reps")
+    pure (fin (Ops.bulkget proto scalars reps (← getInt j "max"))
+      (fun r => Json.mkObj [("scalars", vbsJ r.scalars), ("listing", vbsJ r.listing)]))
+  | n => throw s!"bad ops name {n}"
+
 def handle (j : Json) : Except String Json := do
   let op ← j.getObjValAs? String "op"
   match op with
@@ -173,6 +246,7 @@ def handle (j : Json) : Except String Json := do
   | "types.ipToBytes" => pure (toJson (Types.ipToBytes (← getNat j "v")))
   | "types.fromBE" => pure (toJson (Types.fromBE (← getNats j "b")))
   | "walk.run" => walkRun j
+  | "ops.run" => opsRun j
   | _ => throw s!"bad-op {op}"
 
 end Driver
